@@ -367,7 +367,7 @@ Definition vadd (a b : value) : res value :=
   | VInt x, VInt y => Ok (VInt (x + y))
   | VList x, VList y => Ok (VList (x ++ y))
   | VUndef, _ | _, VUndef => Err UndefinedError
-  | VStr x, VStr y => Ok (VStr (x ++ y))        (* only the async loop gets here: sum() refuses a str start *)
+  | VStr x, VStr y => Ok (VStr (x ++ y))        (* unreachable from sum: both variants refuse a str start *)
   | _, _ => Err TypeError
   end.
 
@@ -387,15 +387,27 @@ Fixpoint sum_go (get : value -> res value) (rv : value) (xs : list value) : res 
 Definition f_sum (a : attr) (start : value) (xs : list value) : res value :=
   match start with VStr _ => Err TypeError | _ => sum_go (sum_getter a) start xs end.
 
-(* async do_sum:  rv = start; async for item: rv += func(item); return rv.
-   [aug] says whether the accumulation is an augmented assignment on the alias of [start]
-   (regenerated from the source by gen/filt_facts.py): then a list [start] is extended in
-   place.  Returns the result and the caller's [start] object after the call. *)
+(* async do_sum (repo bfd2119):  values = [func(item) async for item in ...]; return sum(values, start)
+   — every getter runs before the first addition.  A str start is refused (12b19c4).  [aug] is the
+   regenerated flag "the accumulation is an augmented assignment on the alias of start" (false for the
+   current source): then a list [start] would be extended in place.  Returns the result and the caller's
+   [start] object after the call. *)
 Definition is_list (v : value) : bool := match v with VList _ => true | _ => false end.
+Fixpoint fold_add (rv : value) (vs : list value) : res value :=
+  match vs with
+  | [] => Ok rv
+  | v :: r => match vadd rv v with Err e => Err e | Ok rv' => fold_add rv' r end
+  end.
 Definition f_sum_async (aug : bool) (a : attr) (start : value) (xs : list value) : res (value * value) :=
-  match sum_go (sum_getter a) start xs with
-  | Err e => Err e
-  | Ok rv => Ok (rv, if aug && is_list start then rv else start)
+  match start with
+  | VStr _ => Err TypeError
+  | _ => match mapM (sum_getter a) xs with
+         | Err e => Err e
+         | Ok vs => match fold_add start vs with
+                    | Err e => Err e
+                    | Ok rv => Ok (rv, if aug && is_list start then rv else start)
+                    end
+         end
   end.
 
 (* str() of the values the tie uses *)
